@@ -567,6 +567,21 @@ func init() {
 					}
 				}
 			}
+			{ // nothing to choose from: answered (the clean service says 400 "matrix is empty"), and the server lives on
+				var eb J
+				json.Unmarshal(plain, &eb)
+				eb["choseToMake"] = []string{}
+				ej, _ := json.Marshal(eb)
+				stE, _, errE := ps.post(ej)
+				o.Oracle(Meta{Stage: "resource:electre-empty-choice", Input: J{"request": eb}, Key: "electre-empty"}, errE == nil && (stE == 200 || stE == 400) && ps.alive(),
+					"an ELECTRE request with an empty choseToMake got no answer or the server stopped answering")
+				if !ps.alive() {
+					ps.stop()
+					if s2, err := startServer(dir); err == nil {
+						ps = s2
+					}
+				}
+			}
 			o.Oracle(Meta{Stage: "sequence:electre-default-distillation", Input: J{"request": json.RawMessage(plain), "requests_in_between": hist}, Key: "seq-electre"},
 				seqOK && ps.alive(), "an ELECTRE request relying on the default distillation function is answered differently (or not at all) after requests that stated their own function")
 			ps.stop()
